@@ -38,36 +38,48 @@ def reg(p):
 # ------------------------------------------------------------------------------------------------
 # generic run
 
+def coq_list(prop):
+    return list(prop.coq) if isinstance(prop.coq, (list, tuple)) else [prop.coq]
+
+
 def check_obligations(prop, res):
-    """Re-check the property's theorems against the regenerated Gen files."""
-    rel = prop.coq
-    names = V.theorem_names(rel)
-    res.obligations = len(names)
-    res.theorems = names
-    ok, out = V.coq_make([rel[:-2] + ".vo"])
+    """Re-check the property's theorems (one or more Properties files) against the regenerated
+    Gen files."""
+    res.theorems, res.assumptions, res.assumption_blocks = [], [], 0
+    ok_all = True
+    logs = []
+    for rel in coq_list(prop):
+        names = V.theorem_names(rel)
+        res.obligations += len(names)
+        res.theorems += names
+        ok, out = V.coq_make([rel[:-2] + ".vo"])
+        logs.append(out)
+        if not ok:
+            loc = V.locate_failure(out) or {"file": rel, "statement": None, "error": out[-800:]}
+            res.broken.append({"kind": "obligation", "name": f"{loc.get('file')}:{loc.get('statement')}", "detail": loc})
+            V.log(f"proof obligation broken: {loc.get('file')} {loc.get('statement')}")
+            ok_all = False
+            continue
+        ok, out = V.coqc_file(rel)
+        if not ok:
+            loc = V.locate_failure(out) or {"file": rel, "statement": None, "error": out[-800:]}
+            res.broken.append({"kind": "obligation", "name": f"{loc.get('file')}:{loc.get('statement')}", "detail": loc})
+            ok_all = False
+            continue
+        blocks = V.parse_assumptions(out)
+        axioms = sorted(set(a for b in blocks for a in b))
+        res.assumptions = sorted(set(res.assumptions) | set(axioms))
+        res.assumption_blocks += len(blocks)
+        unexpected = [a for a in axioms if a not in prop.allowed_axioms]
+        if unexpected:
+            res.broken.append({"kind": "obligation", "name": f"Print Assumptions allow-list ({rel})",
+                               "detail": {"unexpected_axioms": unexpected}})
+            ok_all = False
+            continue
+        res.discharged += len(names)
     with open(os.path.join(V.BUILD, "logs", f"{prop.pid}-make.log"), "w") as f:
-        f.write(out)
-    if not ok:
-        loc = V.locate_failure(out) or {"file": rel, "statement": None, "error": out[-800:]}
-        res.broken.append({"kind": "obligation", "name": f"{loc.get('file')}:{loc.get('statement')}", "detail": loc})
-        V.log(f"proof obligation broken: {loc.get('file')} {loc.get('statement')}")
-        return False
-    ok, out = V.coqc_file(rel)
-    if not ok:
-        loc = V.locate_failure(out) or {"file": rel, "statement": None, "error": out[-800:]}
-        res.broken.append({"kind": "obligation", "name": f"{loc.get('file')}:{loc.get('statement')}", "detail": loc})
-        return False
-    blocks = V.parse_assumptions(out)
-    axioms = sorted(set(a for b in blocks for a in b))
-    res.assumptions = axioms
-    res.assumption_blocks = len(blocks)
-    unexpected = [a for a in axioms if a not in prop.allowed_axioms]
-    if unexpected:
-        res.broken.append({"kind": "obligation", "name": "Print Assumptions allow-list",
-                           "detail": {"unexpected_axioms": unexpected}})
-        return False
-    res.discharged = len(names)
-    return True
+        f.write("\n".join(logs))
+    return ok_all
 
 
 def run_stream(prop, res, sc, workdir):
@@ -198,8 +210,8 @@ def run(prop, res):
     workdir = os.path.join(V.BUILD, "run", f"{prop.pid}-{res.tier}")
     os.makedirs(workdir, exist_ok=True)
     os.makedirs(os.path.join(V.BUILD, "logs"), exist_ok=True)
-    checker_cmd = (f"make -C coq -j16 {prop.coq[:-2]}.vo && coqc -Q coq Chess3 coq/{prop.coq}  "
-                   f"(Print Assumptions under every theorem; hygiene grep over coq/**/*.v)")
+    checker_cmd = ("; ".join(f"make -C coq -j16 {rel[:-2]}.vo && coqc -Q coq Chess3 coq/{rel}" for rel in coq_list(prop)) +
+                   "  (Print Assumptions under every theorem; hygiene grep over coq/**/*.v)")
     proofs_ok = check_obligations(prop, res)
     bad = V.hygiene()
     if bad:
@@ -223,7 +235,8 @@ def run(prop, res):
     if prop.extra:
         prop.extra(prop, res, workdir)
     if res.tier == "thorough" and os.environ.get("VERIF_COQCHK", "1") == "1" and proofs_ok:
-        rc, out = V.sh(["coqchk", "-silent", "-o", "-Q", ".", "Chess3", "Chess3." + prop.coq[:-2].replace("/", ".")],
+        rc, out = V.sh(["coqchk", "-silent", "-o", "-Q", ".", "Chess3"] +
+                       ["Chess3." + rel[:-2].replace("/", ".") for rel in coq_list(prop)],
                        cwd=V.COQ, timeout=5400)
         with open(os.path.join(V.BUILD, "logs", f"{prop.pid}-coqchk.log"), "w") as f:
             f.write(out)
